@@ -318,8 +318,17 @@ func c14run(cs *c14case, r *rng, steps int, scripted []uint64) (events []uint64,
 			if kind == 2 && ev[2] != 0 && isVoter[p.target] && ev[1] <= termAtRound+1 {
 				voterGrants++
 			}
+			before := rr.VerifNodeState()
+			bt, bvt, bvc := stable.Triple()
 			p.reply <- pendAns{term: ev[1], granted: ev[2] != 0}
 			settle()
+			// "nothing happened" is what a starved main loop looks like too: give it more time before believing it
+			if st := rr.VerifNodeState(); st.Role == before.Role && st.Term == before.Term {
+				if t, vt, vc := stable.Triple(); t == bt && vt == bvt && vc == bvc {
+					time.Sleep(4 * time.Millisecond)
+					settle()
+				}
+			}
 			if kind == 2 {
 				checkElection()
 				if rr.CurrentTerm() > termAtRound {
